@@ -52,3 +52,9 @@ claim("C01", "grammar-based generation of hostile tagged documents with effect m
       "the effective constructor tables are exactly the 12 core tags + None.",
       "Trusted: the position classification of vlib/safety.py (which nodes the constructor dispatches on), sys.setprofile/sys.addaudithook. One known finding (non-core tags on "
       "structurally consumed nodes are ignored, not rejected) is excluded by the position predicate.")
+claim("C04", "grammar-based generation of hostile tagged documents with effect monitors (audit hook, profile hook, sys.modules diff, canary objects), also after an UnsafeLoader pre-load in the same process (Hypothesis)",
+      "Generated search: the C01 document generator with every python/* form x names (attributes of imported modules, unimported modules/packages on sys.path, builtins, dotted and garbled names) "
+      "with args/kwds/state/listitems/dictitems content, loaded by full_load(_all), FullLoader, CFullLoader; a second arm loads the same (canary-only) document with UnsafeLoader first. Oracle: "
+      "no import/exec/open audit event, sys.modules unchanged, no call outside lib/yaml + stdlib or of a named object, no canary record; results hold only plain data, tuples, complex and "
+      "objects identical to an attribute of a module imported before the load; object/new/apply/module tags at dispatched positions give ConstructorError; static FullLoader tables.",
+      "Trusted: vlib/safety.py position classification and monitors. PEP 562 modules are outside the catalogue.")
